@@ -19,7 +19,7 @@ RULE = ("Histories (Hypothesis rule-based state machine, JSON-replayable): objec
         "Config: every enumerated option set to an invalid value (and numeric options to out-of-range values) through attribute, Config(...), Config.update and constructor kwargs must raise ValueError and keep the old value (exhaustive). "
         "Non-trivial = a mutation after >=2 derivations, or a container holding >=1 string; distinct = distinct histories / inputs.")
 ASSUMPTIONS = ['copy(), flatten()/ravel(), T and fxp_like are documented shallow copies and are outside the statement', 'core-domain formats; arrays of at most 9 elements']
-EXHAUSTIVE = True
+EXHAUSTIVE = False    # the whole quantifier is not enumerated; complete sub-domains are listed in EXHAUSTIVE_SUBDOMAINS
 EXHAUSTIVE_SUBDOMAINS = {'quick': ['invalid values for every validated Config option x 4 setting routes'], 'thorough': ['same']}
 REQUIRED_CLASSES = {'history:mutation-after-2-derivations': 100, 'derive:like_kw': 50, 'derive:arith': 100, 'derive:numpy': 50, 'derive:like': 50, 'mutate:config': 100,
                     'mutate:flag': 100, 'view-write': 200, 'container:strings': 300, 'container:strings-value-mode': 150, 'config-invalid': 40}
